@@ -95,8 +95,7 @@ func dumpNode(n parse.Node) string {
 }
 
 // canonical observation of one parse.Parse call
-func observeParse(text string, argOnly bool) string {
-	const name = "in.yang"
+func observeParse(name, text string, argOnly bool) string {
 	out, leaked, diverged := parseWatched(name, text)
 	if diverged {
 		return "DIVERGED"
@@ -136,7 +135,11 @@ func observeParse(text string, argOnly bool) string {
 func runYParse(c Case) string {
 	b, _ := hex.DecodeString(cstr(c, "hex"))
 	_, argOnly := c["pieces"]
-	out := observeParse(string(b), argOnly)
+	name := "in.yang"
+	if nm := cstr(c, "name"); nm != "" {
+		name = nm // the name of the input, which every error has to carry as it is
+	}
+	out := observeParse(name, string(b), argOnly)
 	if cbool(c, "verdict") && strings.HasPrefix(out, "ok ") {
 		// statement-grammar streams (C09) compare the verdict and the error location only
 		return "ok"
@@ -336,7 +339,18 @@ func genYArg(r *Rng, tier string, n int, emit func(Case)) {
 			lp := s[strings.LastIndex(s, "\n")+1:]
 			var txt string
 			var desc map[string]any
-			if mode == 3 {
+			if r.Chance(12) {
+				// the source text of a double-quoted piece written directly: every backslash pair, defined or not
+				// (RFC 6020 substitutes four of them; the others stay as they are)
+				var raw strings.Builder
+				for x, nx := 0, 1+r.Intn(6); x < nx; x++ {
+					raw.WriteString(pick(r, []string{"a", "b", " ", "\t", "'", "/", "*", "é", ".", "\\n", "\\t", "\\\"", "\\\\", "\\'", "\\.", "\\x", "\\*", "\\/",
+						"\\ ", "\\a", "\\0", "\\é", "\\N", "\\T", "\\;", "\\{", "\\+", "\\'x", "x\\'"}))
+				}
+				txt = "\"" + raw.String() + "\""
+				desc = map[string]any{"q": "d", "col": leadWidthGo(lp) + 1, "raw": hex.EncodeToString([]byte(raw.String()))}
+				pvs[k] = "?"
+			} else if mode == 3 {
 				esc := strings.NewReplacer("\\", "\\\\", "\"", "\\\"", "\n", "\\n", "\t", "\\t").Replace(pv)
 				txt = "\"" + esc + "\""
 				desc = map[string]any{"q": "d", "col": leadWidthGo(lp) + 1, "raw": hex.EncodeToString([]byte(esc))}
@@ -494,7 +508,13 @@ func genYReal(r *Rng, tier string, n int, emit func(Case)) {
 	}
 }
 
-func genYFuzz(r *Rng, tier string, n int, emit func(Case)) {
+func genYFuzz(r *Rng, tier string, n int, emit0 func(Case)) {
+	emit := func(c Case) {
+		if r.Chance(10) {
+			c["name"] = pick(r, []string{"a%sb%d.yang", "100%.yang", "%!x(.yang", "dir/in put.yang", "%v", "é.yang"})
+		}
+		emit0(c)
+	}
 	alpha := []byte{'a', ' ', '\n', '"', '\'', '{', '}', ';', '+', '/', '*', '\\', ':', 0xc3, 0xa9, '\t'}
 	var rec func(prefix []byte, depth int)
 	maxLen := 3
